@@ -249,7 +249,7 @@ func TestAppendFlags(t *testing.T) {
 	evid.Check(t, "AppendFlags", 12000, func(rt *rapid.T) {
 		rtDomain := rapid.Bool().Draw(rt, "roundtrip-domain")
 		to := jgen.TypeOpts{MaxDepth: 3, Avoid: baseAvoid()}
-		vo := jgen.ValOpts{Avoid: map[string]bool{}}
+		vo := jgen.ValOpts{Avoid: map[string]bool{"badutf8keys": true}}
 		if rtDomain {
 			for _, a := range []string{"raw", "any", "iface", "marshalers", "@UJ", "@UT", "@UBoth", "@SE2", "@SE4", "@SE9", "@RecA", "@Wide", "@Shape", "@Sq", "@PSq", "@KText"} {
 				to.Avoid[a] = true
@@ -313,7 +313,7 @@ func TestMapVariants(t *testing.T) {
 			td = jgen.TypeDesc{K: "struct", Fields: []jgen.FieldDesc{{Name: "A", T: jgen.TypeDesc{K: "int"}}, {Name: "M", T: inner}, {Name: "Z", T: jgen.TypeDesc{K: "string"}}}}
 		}
 		c := Case{Kind: "append", Type: td, AFlags: uint32(rapid.IntRange(0, 7).Draw(rt, "aflags")), ByPtr: rapid.Bool().Draw(rt, "byptr")}
-		vo := jgen.ValOpts{Avoid: map[string]bool{}}
+		vo := jgen.ValOpts{Avoid: map[string]bool{"badutf8keys": true}}
 		if c.AFlags&fTrustRaw != 0 {
 			vo.Avoid["badraw"] = true
 		}
